@@ -27,7 +27,8 @@ def run(ctx):
         ks = range(0, n + 1) if n <= 4 or not ctx.quick else sorted(rng.sample(range(0, n + 1), 4))
         for k in ks:
             chooser = detsched.random_chooser(rng, rng.choice([0.02, 0.2]))
-            run_, outcome = camp.one(nodes, edges, workers, rng.choice([0, None]), scheduler, [], "Exception", chooser, "random",
+            failing = rng.sample(nodes, min(len(nodes), rng.choice([0, 0, 1, 2])))
+            run_, outcome = camp.one(nodes, edges, workers, rng.choice([0, 1, None]), scheduler, failing, "Exception", chooser, "random",
                                      interrupt_at=("join", k))
             ctx.case(("intr", tuple(nodes), tuple(edges), workers, scheduler, k, tuple(run_.sched.decisions[:100])), nontrivial=n >= 2,
                      sample={"nodes": nodes, "edges": edges, "workers": workers, "interrupt_after_starts": k, "outcome": outcome[0]} if gi == 2 and k == 1 else None)
@@ -37,7 +38,8 @@ def run(ctx):
             intr_i = next((i for i, e in enumerate(ev) if e[0] == "intr"), None)
             case = {"nodes": nodes, "edges": edges, "workers": workers, "scheduler": scheduler, "k": k, "events": [repr(e) for e in ev[:300]]}
             if intr_i is None:
-                if outcome[0] != "returned":
+                failed = any(e[0] == "end" and not e[3] for e in ev)
+                if outcome[0] != ("raised" if failed and outcome[0] == "raised" else "returned"):
                     ctx.fail("intr:outcome", "no interrupt delivered but outcome %s" % outcome[0], case)
                 continue
             stop_i = next((i for i, e in enumerate(ev) if e[0] == "setstop" and i > intr_i), None)
